@@ -424,7 +424,8 @@ class Generator:
                     seen.append(name)
                 else:
                     dropped.append(name)
-                    ed.replace(s[v0].start, vend, "", 4)
+                    # also drop the doc comments in front of the variant
+                    ed.replace(s[v0 - 1].end, vend, "\n", 4)
                     rules["R9"] = rules.get("R9", 0) + 1
                 i = j + 1
             for k in keep:
